@@ -4,13 +4,17 @@ mod c12;
 use serde::{Deserialize, Serialize};
 use sim::dsl::Universe;
 use sim::gen::{universe, GenCfg};
-use sim::shell::{run_case, CaseCfg, CaseInfo, HostKind};
+use sim::shell::{cross_comparable, run_case, run_cross, CaseCfg, CaseInfo, HostKind};
 use vkit::{Mode, Outcome, Report, Stats, Tier};
 
 #[derive(Debug, Clone, Serialize, Deserialize)]
 struct Case {
     host: HostKind,
     universe: Universe,
+    /// C05: instead of judging one host against the reference, run the universe in lock step on
+    /// all hosts and compare their observations (no reference involved)
+    #[serde(default)]
+    cross: bool,
 }
 
 struct Spec {
@@ -70,9 +74,9 @@ fn spec(prop: &str) -> Option<Spec> {
         },
         "C04" => Spec {
             prop: "C04",
-            hosts: &[Direct],
+            hosts: &[Direct, Direct, Stream],
             gen: GenCfg { abortable: false, ..GenCfg::standard() },
-            rule: "command expressions over done/event/notify/request/stream/builder chains/then/and/all/collect/map_event/map_effect/spawn/async tasks, depth <= 3, every resolve/drop order, inspected directly after every shell action; non-trivial = depth >= 2 with >= 2 different combinators and a builder chain or stream; distinct = distinct universe",
+            rule: "command expressions over done/event/notify/request/stream/builder chains/then/and/all/collect/map_event/map_effect/spawn/async tasks, depth <= 3, every resolve/drop order, inspected directly after every shell action or polled as a stream by a harness executor that polls only after a wake; non-trivial = depth >= 2 with >= 2 different combinators and a builder chain or stream; distinct = distinct universe",
             nontrivial: |u, _| {
                 let s = uses(u);
                 u.programs.iter().any(|p| p.depth() >= 2) && ["then", "and", "all", "map_event", "map_effect"].iter().filter(|k| s.contains(*k)).count() >= 2 && (s.contains("chain") || s.contains("stream"))
@@ -82,9 +86,9 @@ fn spec(prop: &str) -> Option<Spec> {
         },
         "C05" => Spec {
             prop: "C05",
-            hosts: &[Direct, Core, Legacy, BridgeBincode, BridgeJson],
+            hosts: &[Direct, Stream, Core, Legacy, BridgeBincode, BridgeJson],
             gen: GenCfg { depth: 4, wrap: true, ..GenCfg::standard() },
-            rule: "programs nested to depth <= 4 and then wrapped 1-6 more times (all([p]), done.then(p), p.then(done), p.and(done), map_event, map_effect, spawn-on-done), run on every host (direct inspection, Core with the command API, Core with the legacy API, bincode bridge, JSON bridge) under every resolve / drop order; on each host every call is judged against the same reference semantics: the effects and events of the call, and in particular no task left runnable when the call returns (a wake-up lost between layers); non-trivial = total nesting depth >= 5 and a resolution or drop that happened while >= 2 requests were outstanding; distinct = distinct (host, universe)",
+            rule: "programs nested to depth <= 4 and then wrapped 1-6 more times (all([p]), done.then(p), p.then(done), p.and(done), map_event, map_effect, spawn-on-done), run on every host (direct inspection, manual stream polling by a harness executor that polls a command only after its waker was used, Core with the command API, Core with the legacy API, bincode bridge, JSON bridge) under every resolve / drop order; on each host every call is judged against the same reference semantics: the effects and events of the call, and in particular no task left runnable when the call returns (a wake-up lost between layers); a quarter of the cases use no reference at all: the universe (without cancellation and follow-up programs) runs in lock step on {direct, stream-polled, Core}, on {Core, bincode bridge, JSON bridge} and, if expressible, on {Core command API, Core legacy API}, and after every shell action the hosts must have returned the same effects (paths, kinds, map_effect marks), the same resolution result and applied the same events; non-trivial = total nesting depth >= 5 (>= 4 for lock-step cases) and a resolution or drop that happened while >= 2 requests were outstanding; distinct = distinct (host, universe, mode)",
             nontrivial: |u, i| u.programs.iter().any(|p| p.depth() >= 5) && i.max_outstanding >= 2,
             quick: 3_000,
             thorough: 60_000,
@@ -298,6 +302,28 @@ fn main() {
     let tolerate: Vec<String> = known.iter().map(|k| k.sig.clone()).collect();
     let driver_errors = std::sync::atomic::AtomicU64::new(0);
     let check = |c: &Case| -> Result<(), String> {
+        if c.cross && sp.prop == "C05" {
+            if !cross_comparable(&c.universe) {
+                stats.label("cross:not-in-the-comparable-fragment");
+                return Ok(());
+            }
+            // command-API hosts with the full schedule (drops included)
+            let a = run_cross(&c.universe, &[HostKind::Direct, HostKind::Stream, HostKind::Core], true).map_err(|e| format!("[cross-host] {e}"))?;
+            // the serialized hosts against the typed core (a shell cannot drop a serialized request)
+            let b = run_cross(&c.universe, &[HostKind::Core, HostKind::BridgeBincode, HostKind::BridgeJson], false).map_err(|e| format!("[cross-host] {e}"))?;
+            // the legacy capability API against the command API when the program can be written in it (tasks
+            // only; no select: its executor orders polls differently; no drops: in that API a dropped request
+            // wakes nobody, the waiting task simply stays - see DESIGN 4.4)
+            let s = uses(&c.universe);
+            let with_legacy = c.universe.programs.iter().all(sim::legacy::expressible) && !s.contains("select");
+            if with_legacy {
+                run_cross(&c.universe, &[HostKind::Core, HostKind::Legacy], false).map_err(|e| format!("[cross-host] {e}"))?;
+            }
+            let nt = c.universe.programs.iter().any(|p| p.depth() >= 4) && a.max_outstanding >= 2;
+            stats.case(&(c.host, &c.universe, true), nt, &["cross:compared", if with_legacy { "cross:with-legacy-api" } else { "cross:command-api-hosts" }]);
+            let _ = b;
+            return Ok(());
+        }
         let info = match run_case(&c.universe, &CaseCfg { host: c.host, tolerate_retaining, byte_late_resolves: sp.prop == "C02", release_checks: sp.prop == "C13", tolerate: tolerate.clone() }) {
             Ok(info) => info,
             Err(fail) => {
@@ -318,7 +344,7 @@ fn main() {
         let nt = (sp.nontrivial)(&c.universe, &info);
         let ls = labels(&c.universe, &info, c.host);
         let refs: Vec<&str> = ls.iter().map(|s| s.as_str()).collect();
-        stats.case(&(c.host, &c.universe), nt, &refs);
+        stats.case(&(c.host, &c.universe, false), nt, &refs);
         if info.used_retaining_exemption > 0 {
             stats.excluded_known("evict-retained-waker");
         }
@@ -363,13 +389,24 @@ fn main() {
             let mix_long = matches!(tier, Tier::Thorough) && sp.prop != "C13";
             let strategy = move || {
                 use proptest::prelude::*;
-                (proptest::sample::select(hosts.to_vec()), any::<bool>())
-                    .prop_flat_map(move |(h, l)| {
+                let cross_share = if sp.prop == "C05" { 0.25 } else { 0.0 };
+                (proptest::sample::select(hosts.to_vec()), any::<bool>(), proptest::bool::weighted(cross_share))
+                    .prop_flat_map(move |(h, l, cross)| {
                         let mut g = if h == HostKind::Legacy { GenCfg::legacy() } else { gen };
                         if mix_long && l {
                             g.max_acts = 260;
                         }
-                        universe(g).prop_map(move |u| Case { host: h, universe: u })
+                        if cross {
+                            // the comparable fragment: no cancellation from inside, no follow-up programs
+                            g.task_aborts = false;
+                            g.abortable = false;
+                        }
+                        universe(g).prop_map(move |mut u| {
+                            if cross {
+                                u.follow = None;
+                            }
+                            Case { host: h, universe: u, cross }
+                        })
                     })
                     .boxed()
             };
